@@ -158,15 +158,11 @@ func c03R1R3R7(p *core.Program, r *core.Report) {
 			r.Check(ok, "R3", f, "registration is followed by printing the registered name", cs.Call.Pos(), "post-dominated by LocalNameOf of the same path", "a package is registered on a path that does not print its name: unused import")
 			// R7: not the own package
 			own := false
+			isOwnField := func(e ast.Expr) bool { fld := core.FieldOf(info, e); return fld != nil && fld.Name() == "pkgPath" }
+			isThisPath := func(e ast.Expr) bool { return samePathAsAddType(f, cs.Call, e) }
 			for _, fct := range g.FactsAt(at) {
-				b, isBin := ast.Unparen(fct.Cond).(*ast.BinaryExpr)
-				if !isBin || !((b.Op == token.EQL && !fct.Val) || (b.Op == token.NEQ && fct.Val)) {
-					continue
-				}
-				for _, pair := range [][2]ast.Expr{{b.X, b.Y}, {b.Y, b.X}} {
-					if fld := core.FieldOf(info, pair[1]); fld != nil && fld.Name() == "pkgPath" && samePathAsAddType(f, cs.Call, pair[0]) {
-						own = true
-					}
+				if v, ok := eqFact(fct, isThisPath, isOwnField); ok && !v {
+					own = true
 				}
 			}
 			r.Check(own, "R7", f, "the file's own package is never registered", cs.Call.Pos(), "dominated by path != n.pkgPath",
@@ -190,12 +186,11 @@ func c03R1R3R7(p *core.Program, r *core.Report) {
 		for _, rp := range g.Points(func(n ast.Node) bool { _, ok := n.(*ast.ReturnStmt); return ok }) {
 			ret := rp.Node().(*ast.ReturnStmt)
 			isOwn := false
+			isOwnField := func(e ast.Expr) bool { fld := core.FieldOf(info, e); return fld != nil && fld.Name() == "pkgPath" }
+			anyExpr := func(e ast.Expr) bool { return !isOwnField(e) }
 			for _, fct := range g.FactsAt(rp) {
-				b, isBin := ast.Unparen(fct.Cond).(*ast.BinaryExpr)
-				if isBin && b.Op == token.EQL && fct.Val {
-					if f1, f2 := core.FieldOf(info, b.X), core.FieldOf(info, b.Y); (f1 != nil && f1.Name() == "pkgPath") || (f2 != nil && f2.Name() == "pkgPath") {
-						isOwn = true
-					}
+				if v, ok := eqFact(fct, anyExpr, isOwnField); ok && v {
+					isOwn = true
 				}
 			}
 			if isOwn && len(core.CallsTo(info, ret, true, ifaceLocalNameOf)) == 0 {
@@ -340,7 +335,18 @@ func c03R2(p *core.Program, r *core.Report) {
 		}
 		return true
 	})
-	if src == nil {
+	sortedDirect := false
+	ast.Inspect(w.Body, func(n ast.Node) bool {
+		if rs, ok := n.(*ast.RangeStmt); ok {
+			if m := sortedKeysOperand(info, w.Body, rs.X); m != nil && core.VarOf(info, m) == mp {
+				sortedDirect = true
+			}
+		}
+		return true
+	})
+	if src == nil && sortedDirect {
+		r.OK(rule, w, "every key of the map is printed, in sorted order", w.Node().Pos(), "ranges over slices.Sorted(maps.Keys(m))")
+	} else if src == nil {
 		r.Bad(rule, w, "every key of the map is printed", w.Node().Pos(), "writeImports does not range over its map")
 	} else {
 		sh := rangeBodyShape(info, src)
